@@ -476,6 +476,81 @@ def class_all(omit: int) -> bool:
 
 
 # ----------------------------------------------------------------------------- undefined commands: attribute naming
+# ----------------------------------------------------------------------------- (d) a message that is rendered, changed in place, rendered again
+def _inplace_targets(cls):
+    """(kind, row) pairs the idiom 'change in place' applies to: list attributes of scalars, and container attributes"""
+    out = []
+    fresh = cls()
+    for i, d in enumerate(rows_of(cls)):
+        e = A.get_avp_dictionary_entry(d.avp_code, d.vendor_id)
+        if e is None:
+            continue
+        k = kind_of(e["type"])
+        cur = getattr(fresh, d.attr_name, None)
+        if isinstance(cur, list) and k != "grouped":
+            out.append(("list", i, d, k))
+        elif k == "grouped" and d.type_class is not None and not isinstance(cur, list) and _first_scalar(d.type_class)[0] is not None:
+            out.append(("cont", i, d, k))
+    return out
+
+
+def rerender(t: int, via: int) -> bool:
+    """
+    pre: 0 <= t < P["ntargets"] and 0 <= via <= 2
+    post: _
+    """
+    hx.begin()
+    cls = CLASSES[P["cls"]]
+    targets = _inplace_targets(cls)
+    what, i, d, k = targets[hx.concretize_range(t, 0, len(targets))]
+    how = hx.concretize_range(via, 0, 3)        # the first rendering: as_bytes() / .avps / find_avps()
+    inputs = (t, via)
+    try:
+        with hx.untraced():
+            def build(final):
+                o = cls()
+                _set_all(o, -1)
+                if what == "list":
+                    v0, v1 = concrete_value(k, 0)[0], concrete_value(k, 1)[0]
+                    setattr(o, d.attr_name, [v0, v1] if final else [v0])
+                else:
+                    c = d.type_class()
+                    md, me = _first_scalar(d.type_class)
+                    mk = kind_of(me["type"])
+                    cur = getattr(c, md.attr_name, None)
+                    val = concrete_value(mk, 1 if final else 0)[0]
+                    setattr(c, md.attr_name, [val] if isinstance(cur, list) else val)
+                    setattr(o, d.attr_name, c)
+                return o
+            o = build(False)
+            if how == 0:
+                o.as_bytes()
+            elif how == 1:
+                list(o.avps)
+            else:
+                o.find_avps((d.avp_code, d.vendor_id))
+            # the change in place (documented idioms: msg.route_record.append(x), msg.<container>.<field> = y)
+            if what == "list":
+                getattr(o, d.attr_name).append(concrete_value(k, 1)[0])
+            else:
+                c = getattr(o, d.attr_name)
+                md, me = _first_scalar(d.type_class)
+                mk = kind_of(me["type"])
+                cur = getattr(c, md.attr_name, None)
+                val = concrete_value(mk, 1)[0]
+                if isinstance(cur, list):
+                    cur[0] = val
+                else:
+                    setattr(c, md.attr_name, val)
+            second = o.as_bytes()
+            ref = build(True).as_bytes()
+            obs = (second == ref, len(second))
+            exp = (True, len(ref))
+    except Exception as e:
+        return hx.fail(inputs, "raised %s: %s" % (type(e).__name__, str(e)[:80]))
+    return hx.check(inputs, obs, exp, "a message rendered once, then changed in place (%s %s), must encode like a message built with the final values" % (what, d.attr_name))
+
+
 def undefined_naming(v1: int, v2: int, b3: bytes) -> bool:
     """
     pre: 0 <= v1 <= 0xffffffff and 0 <= v2 <= 0xffffffff and len(b3) <= 2
@@ -562,5 +637,10 @@ def specs(tier, seed, carve):
         for (code_, vend_) in (rnd.sample(cand, min(2, len(cand))) if q else cand[:6]):
             out.append(dict(id="carry_over_collide/%s/%d-%d" % (n_, code_, vend_), fn="carry_over", params={"cls": n_, "code": code_, "vendor": vend_}, timeout=60,
                             bound="%s: one undeclared AVP with the code %d of a declared attribute but vendor %d (M/P bits symbolic, 4 symbolic payload bytes) after the class's own AVPs" % (n_, code_, vend_)))
+    mnames = [n_ for n_ in sorted(CLASSES) if n_.startswith("m:") and _inplace_targets(CLASSES[n_])]
+    for n_ in (rnd.sample(mnames, 16) if q else mnames):
+        nt = len(_inplace_targets(CLASSES[n_]))
+        out.append(dict(id="rerender/" + n_, fn="rerender", params={"cls": n_, "ntargets": nt}, timeout=300,
+                        bound="%s: each of its %d list / container attributes changed in place after a first rendering through as_bytes(), .avps or find_avps()" % (n_, nt)))
     out.append(dict(id="undefined_naming", fn="undefined_naming", params={}, timeout=120, bound="undefined command with a repeated AVP (two symbolic Unsigned32), a grouped AVP and a symbolic OctetString"))
     return out
